@@ -27,7 +27,7 @@ FORMAT = "charmm"
 FILENAME = "model.crd"
 LOAD_MANY = False
 
-F32_EPS = 2.0**-23
+F32_EPS = 2.0**-22  # two float32 ulps (parse + unit conversion are both rounded to float32)
 
 
 def st_model(big):
